@@ -828,10 +828,25 @@ type recSessTrack struct {
 	// pushOrder: source packets in the order in which they entered the sample builder
 	pushOrder []int
 	maxIdx    int // newest source packet presented so far (-1: none)
+	// originFwd: by how many RTP ticks sender reports moved the track's time
+	// origin forward (towards later capture times) after it had been set;
+	// originEnter: bookkeeping for the call in progress
+	originFwd    int64
+	originShifts [][2]int64 // (stamp, ticks) of each move forward
+	originEnter  [2]uint32
 	// judging state
 	used    map[int]bool
 	present map[int]int64 // frame -> timestamp in its file
 	lastIdx int
+}
+
+// originNote says whether sender reports moved the time origin of the
+// track forward during the recording (the circumstance of a known finding).
+func (st *recSessTrack) originNote() string {
+	if st.originFwd <= 0 {
+		return "the time origin of this track was never moved forward"
+	}
+	return fmt.Sprintf("a sender report moved the time origin of this track forward by %d ms after it was set", st.originFwd*1000/int64(st.trk.sp.clock()))
 }
 
 type recSession struct {
@@ -1141,6 +1156,35 @@ func (w *recWorld) installProbes() {
 		i := int(uint16(pk.SequenceNumber - st.trk.sp.StartSeq))
 		if i < len(st.trk.pkts) {
 			st.pushOrder = append(st.pushOrder, i)
+		}
+	})
+	// a sender report that moves the time origin of a track forward after it
+	// was set (known finding: the origin of a replayed or delayed key frame
+	// is first estimated from its arrival time)
+	r.Probe("diskwriter.(*diskTrack).setTimeOffset", func(enter bool, args []any) {
+		if len(args) < 1 {
+			return
+		}
+		dt, _ := args[0].(*diskwriter.VerifTrack)
+		st := w.sessTrackOf(dt)
+		if st == nil {
+			return
+		}
+		o, ok := dt.VerifOrigin()
+		if enter {
+			st.originEnter = [2]uint32{o, 0}
+			if ok {
+				st.originEnter[1] = 1
+			}
+			return
+		}
+		if ok && st.originEnter[1] == 1 {
+			if d := int32(o - st.originEnter[0]); d > 0 {
+				st.originFwd += int64(d)
+				st.originShifts = append(st.originShifts, [2]int64{w.c.Stamp(), int64(d)})
+				w.c.Count("probe.origin_moved_forward", 1)
+				w.dbg("sender report moved the origin of the %s track forward by %d ticks", st.trk.name(), d)
+			}
 		}
 	})
 	r.Probe("diskwriter.fetch", func(enter bool, args []any) {
@@ -1615,7 +1659,7 @@ func (w *recWorld) judgeSession(s *recSession) {
 					st.present[cnd] = blk.Time
 				}
 				if haveTime[blk.Track] && blk.Time < lastTime[blk.Track] {
-					w.violation("C20.timestamp-decreases", "%s: %s: a %s frame has timestamp %d ms, the frame before it %d ms (sender reports sent so far: %d, joined mid-stream: %v)", tag, name, t.name(), blk.Time, lastTime[blk.Track], w.srSent, s.replayed)
+					w.violation("C20.timestamp-decreases", "%s: %s: a %s frame has timestamp %d ms, the frame before it %d ms (%s; sender reports sent so far: %d, joined mid-stream: %v)", tag, name, t.name(), blk.Time, lastTime[blk.Track], st.originNote(), w.srSent, s.replayed)
 					return
 				}
 				lastTime[blk.Track], haveTime[blk.Track] = blk.Time, true
@@ -1650,7 +1694,7 @@ func (w *recWorld) judgeSession(s *recSession) {
 			st.present[fr] = blk.Time
 			// (d)
 			if haveTime[blk.Track] && blk.Time < lastTime[blk.Track] {
-				w.violation("C20.timestamp-decreases", "%s: %s: %s frame #%d has timestamp %d ms, the frame before it %d ms (sender reports sent so far: %d, joined mid-stream: %v)", tag, name, t.name(), fr, blk.Time, lastTime[blk.Track], w.srSent, s.replayed)
+				w.violation("C20.timestamp-decreases", "%s: %s: %s frame #%d has timestamp %d ms, the frame before it %d ms (%s; sender reports sent so far: %d, joined mid-stream: %v)", tag, name, t.name(), fr, blk.Time, lastTime[blk.Track], st.originNote(), w.srSent, s.replayed)
 				return
 			}
 			lastTime[blk.Track], haveTime[blk.Track] = blk.Time, true
@@ -1932,13 +1976,47 @@ func (w *recWorld) judgeComplete(s *recSession, tag string) {
 			return true, last, first
 		}
 		// hints for triage: circumstances known to make the recorder lose frames
+		kf0 := -1 // the key frame that set the time origin, once known
 		hints := func(f int) string {
 			var h []string
+			base := t.pkts[lo].Frame
+			if kf0 >= 0 {
+				base = kf0
+			}
 			if t.sp.ResAt > 0 && f >= t.sp.ResAt {
 				h = append(h, fmt.Sprintf("the resolution changes at frame #%d", t.sp.ResAt))
 			}
 			if dupNewest >= 0 && dupNewest < t.frames[f].First+t.maxLate {
 				h = append(h, fmt.Sprintf("a second copy of packet %d arrived while it was the newest one", dupNewest))
+			}
+			if st.originFwd > 0 {
+				// Time 0 of a file is the key frame that opened it; a move of the
+				// origin after that puts time 0 later than the frames that follow
+				// the key frame closely.  Which file: the one this frame belongs
+				// to by its resolution.
+				var created []int64
+				for _, rf := range w.files {
+					if rf.owner == s {
+						created = append(created, rf.created)
+					}
+				}
+				sort.Slice(created, func(i, j int) bool { return created[i] < created[j] })
+				since := int64(0)
+				if len(created) > 0 {
+					since = created[0]
+				}
+				if t.sp.ResAt > 0 && f >= t.sp.ResAt && len(created) >= 2 {
+					base, since = t.sp.ResAt, created[1]
+				}
+				moved := int64(0)
+				for _, sh := range st.originShifts {
+					if sh[0] > since {
+						moved += sh[1]
+					}
+				}
+				if moved > 0 && int64(t.frames[f].CapUs-t.frames[base].CapUs)*int64(t.sp.clock())/1000000 <= moved+int64(t.sp.clock())/1000 {
+					h = append(h, st.originNote()+", past this frame")
+				}
 			}
 			if t.sp.Codec == "h264" && t.sp.AU {
 				h = append(h, "H.264 key frames are access units of several NAL units (the sample builder takes every NAL unit packet for a frame of its own)")
@@ -1980,6 +2058,7 @@ func (w *recWorld) judgeComplete(s *recSession, tag string) {
 			for f := anchor; f < len(t.frames); f++ {
 				if ok, last, first := full(t.frames[f]); ok && t.frames[f].Key {
 					e0 = f
+					kf0 = f
 					videoOpen, videoL0 = last.stamp, first.at
 					// how much later than its capture the key frame reached the
 					// recorder (late join: it was replayed from the cache); without
@@ -1987,6 +2066,21 @@ func (w *recWorld) judgeComplete(s *recSession, tag string) {
 					if a := first.at - (w.t0sim + time.Duration(t.frames[f].CapUs)*time.Microsecond); a > 0 {
 						videoAge = a
 					}
+					// The recorder's idea of the capture clock comes from the
+					// arrival of the first key frame packet it sees, also when
+					// that key frame never makes it into a file (replayed from
+					// the cache after newer live packets had been consumed): its
+					// age then shifts the origin of the file that a later key
+					// frame opens.
+					for _, g := range t.frames[:f] {
+						if r, ok := got[g.First]; ok && g.Key && r.stamp <= last.stamp {
+							if a := r.at - (w.t0sim + time.Duration(g.CapUs)*time.Microsecond); a > videoAge {
+								videoAge = a
+								c.Count("probe.origin_from_discarded_keyframe", 1)
+							}
+						}
+					}
+					videoL0 = w.t0sim + time.Duration(t.frames[f].CapUs)*time.Microsecond + videoAge
 					break
 				}
 			}
